@@ -14,6 +14,15 @@ var c04Fns = []string{"Execute", "ExecuteWithStopTagDirect", "ExecuteSelectedRul
 var c04PolicyOnly = []string{"ExecuteSelectedRulesWithControlAsGivenSortedName", "ExecuteSelectedRulesWithControlAndStopTagAsGivenSortedName"}
 
 func runC04(c *Ctx) {
+	// the pool's sort-model methods hand the model's error to their caller
+	c.armPoolError("O6-pool-reports-the-error", func(m string) bool {
+		switch m {
+		case "Execute", "ExecuteWithStopTagDirect", "ExecuteSelectedRules", "ExecuteSelectedRulesWithControl", "ExecuteSelectedRulesWithControlAndStopTag", "ExecuteSelectedRulesWithControlAsGivenSortedName", "ExecuteSelectedRulesWithControlAndStopTagAsGivenSortedName":
+			return true
+		}
+		return false
+	}, 7)
+
 	c.ruleO1("O1-comparator-descending")
 	c.Min("O1-comparator-descending", 10)
 	for _, n := range append(append([]string{}, c04Fns...), c04PolicyOnly...) {
